@@ -64,6 +64,10 @@ def check(cd, tree, extra):
     out = []
     canon = canonicalize(cd, tree)
     b = ref_encode(cd, canon)
+    if len(b) % 6 == 2:
+        from ..treeprop import note
+
+        note("preceded_by_failed_decodes", K.failed_decode_prelude(cd))  # earlier messages of this class were cut short
     b2, fail = _reencode(cd, b, "canonical")
     if fail:
         return fail
